@@ -29,6 +29,10 @@ class FuncInfo:
         self.node = node
         self.cls = cls            # ClassInfo or None
         self.parent = parent      # enclosing FuncInfo or None
+        try:
+            node._module_tree = module.tree       # lets function-level engines find sibling helpers of the same module
+        except Exception:
+            pass
 
     @property
     def fq(self):
